@@ -45,7 +45,7 @@ PROPS['C15'] = dict(
 )
 PROPS['C18'] = dict(
   level='proof',
-  verus=[dict(unit='bytecode', min_functions=10), dict(unit='peephole', min_functions=8), dict(unit='lines', min_functions=3)],
+  verus=[dict(unit='bytecode', min_functions=10), dict(unit='peephole', min_functions=8), dict(unit='lines', min_functions=6)],
   not_decided=['traceback/backtrace assembly from frames, exit-status mapping in Vm::run, exit(n); Compiler::emit_byte line + 1'],
 )
 PROPS['C04'] = dict(
